@@ -34,9 +34,6 @@ def step (line : String) : String :=
       let lo ← floatFromRat; let hi ← floatFromRat; let n ← nat
       let us ← many floatFromRat; let perm ← many nat
       return (match lhsAxis lo hi n us perm with | some xs => showList showFloat xs | none => "err:perm")
-    | "gauss" => do         -- mean + std * z
-      let m ← floatFromRat; let s ← floatFromRat; let zs ← many floatFromRat
-      return showList showFloat (zs.map (gaussPoint m s))
     | "unionpick" => do     -- D.6: choice bit per row (1 = the A-proposal)
       let inA ← many bool; let us ← many rat; let ratios ← many rat
       if inA.length ≠ us.length ∨ us.length ≠ ratios.length then return "err:shape"
@@ -59,11 +56,6 @@ def step (line : String) : String :=
       match accLoop n (fun rd => roundOf rounds rd) (·.2) (fun _ _ => false) fuel 0 [] with
       | some (rd, out) => return s!"{rd} | {showPairs (out.map (·.1))}"
       | none => return "err:fuel"
-    | "lhsrow" => do        -- LHS row: kept stratified proposals (+ number of top-up points)
-      let n ← nat; let bits ← many bool
-      let props := (List.range bits.length).zip bits
-      let out := lhsRow n props (·.2) (fun m => (List.range m).map fun i => (1000000 + i, true))
-      return showNats (out.map (·.1))
     | _ => return "bad-op" : P String).run' (tokens line)
   match r with
   | .ok s => s
